@@ -4,6 +4,7 @@
 
 use std::cell::{Cell, RefCell};
 use std::collections::VecDeque;
+use std::sync::atomic::{AtomicBool, AtomicU64, Ordering};
 use std::sync::{Arc, Condvar, Mutex};
 
 use crate::rng::Rng;
@@ -42,11 +43,19 @@ pub struct State {
     pub switches: u64,
     pub switches_by_site: [u64; 16],
     pub forced_unblock: u64,
+    /// threads presumed blocked inside jbonsai (on a lock another simulated thread holds)
+    blocked: Vec<bool>,
+    pub tainted: bool,
+    pub deadlocked: bool,
     /// yield points executed by all threads so far (updated at every decision)
     pub total: u64,
 }
 
 pub struct Sched {
+    /// bumped at every yield point by whoever runs: the monitor's progress signal
+    pub heartbeat: AtomicU64,
+    /// set by the monitor for a thread whose baton was taken away while it was blocked
+    pub lost: Vec<AtomicBool>,
     pub m: Mutex<State>,
     /// one condition variable per simulated thread: a hand-over wakes exactly the next runner
     pub cvs: Vec<Condvar>,
@@ -57,17 +66,19 @@ thread_local! {
     static ACTIVE: Cell<bool> = const { Cell::new(false) };
     static REMAINING: Cell<u64> = const { Cell::new(0) };
     static RAN: Cell<u64> = const { Cell::new(0) };
+    static HB: Cell<*const AtomicU64> = const { Cell::new(std::ptr::null()) };
+    static LOSTP: Cell<*const AtomicBool> = const { Cell::new(std::ptr::null()) };
 }
 
 impl State {
     fn pick(&mut self, now: u64) -> (usize, u64) {
-        let alive: Vec<usize> = (0..self.alive.len()).filter(|i| self.alive[*i]).collect();
+        let alive: Vec<usize> = (0..self.alive.len()).filter(|i| self.alive[*i] && !self.blocked[*i]).collect();
         if alive.is_empty() {
             return (usize::MAX, 1);
         }
         if let Some(q) = self.forced.as_mut() {
             match q.pop_front() {
-                Some((t, ran, fin)) if self.alive.get(t as usize).copied().unwrap_or(false) => return (t as usize, if fin { ran + 1 } else { ran.max(1) }),
+                Some((t, ran, fin)) if self.alive.get(t as usize).copied().unwrap_or(false) && !self.blocked[t as usize] => return (t as usize, if fin { ran + 1 } else { ran.max(1) }),
                 _ => self.diverged = true,
             }
         }
@@ -106,17 +117,23 @@ impl Sched {
             switches: 0,
             switches_by_site: [0; 16],
             forced_unblock: 0,
+            blocked: vec![false; nthreads],
+            tainted: false,
+            deadlocked: false,
             total: 0,
         };
         let (first, len) = st.pick(0);
         st.current = first;
         st.pending_len = len;
-        Arc::new(Sched { m: Mutex::new(st), cvs: (0..nthreads).map(|_| Condvar::new()).collect() })
+        Arc::new(Sched { heartbeat: AtomicU64::new(0), lost: (0..nthreads).map(|_| AtomicBool::new(false)).collect(), m: Mutex::new(st), cvs: (0..nthreads).map(|_| Condvar::new()).collect() })
     }
 
     /// Called by a simulated thread before it does anything: register and wait for the baton.
     pub fn enter(self: &Arc<Sched>, id: usize) {
         CTX.with(|c| *c.borrow_mut() = Some((self.clone(), id)));
+        // raw pointers into the Arc kept alive by CTX for as long as this thread is simulated
+        HB.with(|h| h.set(&self.heartbeat as *const AtomicU64));
+        LOSTP.with(|l| l.set(&self.lost[id] as *const AtomicBool));
         ACTIVE.with(|a| a.set(true));
         let mut st = self.m.lock().unwrap();
         while st.current != id {
@@ -128,13 +145,21 @@ impl Sched {
 
     /// Called by a simulated thread when its program is finished.
     pub fn leave(self: &Arc<Sched>, id: usize) {
-        CTX.with(|c| *c.borrow_mut() = None);
         ACTIVE.with(|a| a.set(false));
+        HB.with(|h| h.set(std::ptr::null()));
+        LOSTP.with(|l| l.set(std::ptr::null()));
+        CTX.with(|c| *c.borrow_mut() = None);
         let mut st = self.m.lock().unwrap();
         let ran = RAN.with(|r| r.get());
         st.log.push((id as u16, ran, true));
         st.total += ran;
         st.alive[id] = false;
+        st.blocked[id] = false;
+        self.heartbeat.fetch_add(1, Ordering::Relaxed);
+        if st.current != id {
+            // this thread was running detached (its baton had been taken away while it was blocked)
+            return;
+        }
         let now = st.total;
         let (next, len) = st.pick(now);
         st.current = next;
@@ -143,6 +168,51 @@ impl Sched {
         if next != usize::MAX {
             self.cvs[next].notify_one();
         }
+    }
+
+    /// A thread that lost its baton while blocked has woken up and reached a yield point:
+    /// become schedulable again and wait for the baton.
+    fn reacquire(self: &Arc<Sched>, id: usize) {
+        let mut st = self.m.lock().unwrap();
+        st.blocked[id] = false;
+        self.lost[id].store(false, Ordering::SeqCst);
+        if st.current == usize::MAX || !st.alive.get(st.current).copied().unwrap_or(false) {
+            st.current = id;
+            st.pending_len = 1;
+        }
+        while st.current != id {
+            st = self.cvs[id].wait(st).unwrap();
+        }
+        REMAINING.with(|r| r.set(st.pending_len));
+        RAN.with(|r| r.set(0));
+    }
+
+    /// Monitor side (the thread that waits for the simulated threads): the baton holder made no
+    /// progress for a while, so it is presumed blocked on a lock held by a parked thread. Take the
+    /// baton away and give it to somebody else. From here on the run is *tainted*: when the blocked
+    /// thread wakes up it runs unsupervised until its next yield point. Returns false on deadlock
+    /// (nobody left to run).
+    pub fn force_unblock(self: &Arc<Sched>) -> bool {
+        let mut st = self.m.lock().unwrap();
+        let h = st.current;
+        if h == usize::MAX {
+            return st.alive.iter().any(|a| *a);
+        }
+        st.blocked[h] = true;
+        self.lost[h].store(true, Ordering::SeqCst);
+        st.tainted = true;
+        st.forced_unblock += 1;
+        let now = st.total;
+        let (next, len) = st.pick(now);
+        if next == usize::MAX {
+            st.deadlocked = true;
+            return false;
+        }
+        st.log.push((h as u16, 0, false));
+        st.current = next;
+        st.pending_len = len;
+        self.cvs[next].notify_one();
+        true
     }
 
     fn switch(self: &Arc<Sched>, id: usize, site: u32) {
@@ -182,6 +252,20 @@ impl Sched {
 pub fn yield_point(site: u32) {
     if !ACTIVE.with(|a| a.get()) {
         return;
+    }
+    // progress signal for the monitor, and: did the monitor take our baton while we were blocked?
+    let hb = HB.with(|h| h.get());
+    let lp = LOSTP.with(|l| l.get());
+    if !hb.is_null() {
+        // SAFETY: both point into the Arc<Sched> that CTX keeps alive while ACTIVE is set
+        unsafe { (*hb).fetch_add(1, Ordering::Relaxed) };
+        if unsafe { (*lp).load(Ordering::Relaxed) } {
+            let ctx = CTX.with(|c| c.borrow().clone());
+            if let Some((s, id)) = ctx {
+                s.reacquire(id);
+            }
+            return;
+        }
     }
     RAN.with(|r| r.set(r.get() + 1));
     let left = REMAINING.with(|r| r.get());
